@@ -69,6 +69,8 @@ func Run(run *vh.Run) {
 	run.Floor("valid signed messages accepted", run.Get("signed_messages_valid_accepted"), int64(run.N(15, 150)))
 	run.Floor("own signed messages in a denomination other than the bond denomination", run.Get("signed_messages_in_other_denomination"), int64(run.N(4, 60)))
 	run.Floor("comparisons whose rewards are paid in several denominations", run.Get("twin_comparisons_paying_rewards_in_several_denominations"), int64(run.N(20, 300)))
+	run.Floor("view / withdrawal / view sequences run by a contract in one transaction", run.Get("view_sequences_checked"), int64(run.N(15, 250)))
+	run.Floor("of these, with an effective withdrawal between the two reads", run.Get("view_sequences_with_a_withdrawal_in_between"), int64(run.N(5, 80)))
 	run.Floor("view answers compared with native queries", run.Get("views_compared"), int64(run.N(350, 4000)))
 	run.Floor("receipt logs compared", run.Get("logs_compared"), int64(run.N(280, 3500)))
 	run.Floor("native staking transactions interleaved", run.Get("native_staking_txs_interleaved"), int64(run.N(110, 1400)))
@@ -96,8 +98,10 @@ func (w *world) drive(nOps int) {
 			switch x := r.Intn(100); {
 			case x < 58:
 				p = w.planOp()
-			case x < 72:
+			case x < 68:
 				p = w.planViewTx()
+			case x < 72:
+				p = w.planViewSequence()
 			default:
 				p = w.planNative()
 			}
